@@ -38,3 +38,19 @@ var Next interface {
 func (t *T) G(name string, shape, depth int) (dom string, err error) {
 	return Next.G(name, shape, depth)
 }
+
+// HG is call path 3: a generic function (the runtime names it HG[...]).
+// Below link 1 the chain continues with p0's plain H.
+//
+//go:noinline
+func HG[X any](name string, shape, depth int) (dom string, err error) {
+	return p0.H(name, shape, depth)
+}
+
+// GT carries call path 4: a method of a generic type (named (*GT[...]).GG).
+type GT[X any] struct{}
+
+//go:noinline
+func (t *GT[X]) GG(name string, shape, depth int) (dom string, err error) {
+	return p0.H(name, shape, depth)
+}
